@@ -139,3 +139,50 @@ impl Service for ServiceImpl {
             .wrapping_add(v.iter().map(|x| *x as u64).sum::<u64>())
     }
 }
+
+/// An implementation that itself *uses* savefile-abi: its constructor connects to a helper (as a plug-in that
+/// depends on another plug-in, or wraps an in-process helper behind the ABI, does).  When the implementation
+/// lives in a shared library the constructor runs inside `load_shared_library` (`CreateInstance`).
+#[savefile_abi_exportable(version = 0)]
+pub trait Nest {
+    fn ping(&self, x: u32) -> u32;
+}
+pub struct NestImpl {
+    helper: savefile_abi::AbiConnection<dyn Callback>,
+}
+impl Default for NestImpl {
+    fn default() -> Self {
+        let helper = savefile_abi::AbiConnection::<dyn Callback>::from_boxed_trait(Box::new(Cb { k: 5, drops: Arc::new(AtomicUsize::new(0)) }))
+            .expect("helper connection");
+        NestImpl { helper }
+    }
+}
+impl Nest for NestImpl {
+    fn ping(&self, x: u32) -> u32 {
+        self.helper.notify(x)
+    }
+}
+
+/// Same method name as `Nest` with another argument type: a connection between the two is refused.  The
+/// implementation's destructor uses savefile-abi itself (it says goodbye to a helper through a connection).
+#[savefile_abi_exportable(version = 0)]
+pub trait Nest2 {
+    fn ping(&self, x: String) -> u32;
+}
+pub struct DropConnects {
+    pub dropped: Arc<AtomicUsize>,
+}
+impl Nest2 for DropConnects {
+    fn ping(&self, x: String) -> u32 {
+        x.len() as u32
+    }
+}
+impl Drop for DropConnects {
+    fn drop(&mut self) {
+        let helper = savefile_abi::AbiConnection::<dyn Callback>::from_boxed_trait(Box::new(Cb { k: 1, drops: Arc::new(AtomicUsize::new(0)) }));
+        if let Ok(h) = helper {
+            h.notify(1);
+        }
+        self.dropped.fetch_add(1, Ordering::SeqCst);
+    }
+}
